@@ -148,6 +148,11 @@ func decorations(member, signed, sig, decoy string) map[string][]byte {
 }
 
 func c03(x *mon.Ctx) {
+	if !x.Quick() {
+		defer func() {
+			x.Fuzz("FuzzCollateral", 300000)
+		}()
+	}
 	x.Level = "exploration"
 	x.Rule = "scripted collateral endpoint. (ii) non-replacement differential: a genuinely signed TCB-Info / QE-Identity member whose signed values must lead to rejection (OutOfDate, foreign FMSPC, wrong MRSIGNER, expired, module identities omitted, ...) decorated with an UNSIGNED member that would lead to acceptance, under every arrangement (exact-key duplicate before/after/between, every case variant and Unicode-fold variant of the key that Go's decoder equates, escaped key, duplicate signature keys, evil-first superset) must stay rejected; (iii) must-reject: every single-bit flip inside the signed member (sampled in the quick tier), re-encoding without re-signing, signature over the whole body, foreign / wrong-role / wrong-issuer signers, wrong id/version, empty levels, missing members, malformed issuer-chain headers; (i) everything else (bit flips elsewhere, converse decorations, benign whitespace) is judged by the reference: accepted => an exact-key member verifies under the header's TCB-signing certificate, which chains to the pool, and that member's values pass C04/C07. Every fault is derived from a world whose twin was accepted with collateral. distinct = (class, arrangement, world, level)."
 	x.Assume = []string{"ECDSA unforgeability", "the reference JSON member scanner returns the exact raw bytes of each top-level member"}
